@@ -34,6 +34,7 @@ EXPLANATION += ' (R3, round 8) a length guard does not discharge a `str` sliced 
 EXPLANATION += " (R7, round 9) = C03.R4's pinned canonical layout of a signed entry."
 EXPLANATION += ' (R8, round 10) = C13.R2: decoding an author-heads report rebuilds it through AuthorHeads::insert, which keeps every author (also at timestamp 0) at its maximum.'
 EXPLANATION += ' (R9, round 11) = the set / get cells of C15.R2: a policy survives its storage round trip, also one with an empty filter list.'
+EXPLANATION += ' (R10, round 12) = C03.R13: the pinned 32-byte encodings of secrets, public keys and ids (to_bytes / as_bytes / from_bytes / From<[u8; 32]>, serde as a transparent newtype).'
 
 
 def _truth(k, v):
@@ -667,6 +668,12 @@ def r9(ctx):
     from . import C15
     ctx.share("C09.R9", C15.r2, "C15.R2", keep=lambda k: "set[" in k or "reader" in k or "get" in k, floor=3)
 
+def r10(ctx):
+    """"author and namespace keys keep their pinned byte encodings": to_bytes / as_bytes / from_bytes / From<[u8; 32]> / Serialize of the key and id types evaluated - the bare 32 bytes each"""
+    from . import keyalg
+    keyalg.check(ctx, "C09.R10")
+    ctx.floor("C09.R10", 40)
+
 def run(ctx):
     ctx.run_rule("C09.R1", r1)
     ctx.run_rule("C09.R2", r2)
@@ -677,3 +684,4 @@ def run(ctx):
     ctx.run_rule("C09.R7", r7)
     ctx.run_rule("C09.R8", r8)
     ctx.run_rule("C09.R9", r9)
+    ctx.run_rule("C09.R10", r10)
